@@ -330,14 +330,18 @@ class PathTokenizer(Tokenizer):
     def __init__(self, expression="[^/]+"):
         self.expr = rcompile(expression)
 
-    def __call__(self, value, positions=False, start_pos=0, **kwargs):
+    def __call__(self, value, positions=False, chars=False, start_pos=0,
+                 start_char=0, **kwargs):
          assert isinstance(value, text_type), "%r is not unicode" % value
-         token = Token(positions, **kwargs)
+         token = Token(positions, chars, **kwargs)
          pos = start_pos
          for match in self.expr.finditer(value):
              token.text = value[:match.end()]
              if positions:
                  token.pos = pos
                  pos += 1
+             if chars:
+                 token.startchar = start_char
+                 token.endchar = start_char + match.end()
              yield token
 
